@@ -30,7 +30,7 @@ Definition visit (below : tree -> str -> str -> Z -> option str -> list event)
   Ev (t_id T) i m o l' (Some (t_id T, i)) (is_leaf t i) ::
   match nth_error (subs_of t) (Z.to_nat i) with
   | Some (Some s) =>
-      below s (snipk name m) args (child_obj o (t_id T) i (if mem 35 name then first_number m else 0)) l'
+      below s (snipk name m) args (child_obj o (t_id T) i (port_index name m)) l'
   | _ => []
   end.
 
@@ -155,7 +155,7 @@ Definition tree_cb (f : nat) (t : tree) (args : str) : callback := fun i msg d =
   match nth_error (subs_of t) (Z.to_nat i) with
   | Some (Some sub) =>
       let name := match nth_error (t_ports T) (Z.to_nat i) with Some (n, _) => n | None => [] end in
-      let n := if mem 35 name then first_number msg else 0 in
+      let n := port_index name msg in
       dispatch_f f sub (snipk name msg) args false (set_obj d1 (child_obj (obj d1) (t_id T) i n))
   | _ => d1
   end.
@@ -478,7 +478,7 @@ Proof.
   { intros hits. apply Forall_forall. intros e He. apply in_flat_map in He as ([[[i name] sub] pe] & _ & He).
     unfold visit in He. destruct He as [<-|He]; [reflexivity|].
     destruct (nth_error (subs_of t) (Z.to_nat i)) as [[s|]|]; try contradiction.
-    specialize (IH s (snipk name m) args (child_obj o (t_id (tab_of t)) i (if mem 35 name then first_number m else 0))
+    specialize (IH s (snipk name m) args (child_obj o (t_id (tab_of t)) i (port_index name m))
                    (option_map (fun l => l ++ app_of name m pe) p)).
     rewrite Forall_forall in IH. now apply IH. }
   destruct p as [l|]; [|apply G]. destruct (tables_of (tab_of t)); [|apply G].
@@ -559,7 +559,7 @@ Fixpoint chain (path : list nat) (t : tree) (m args : str) (o : Z) (p : option s
           match nth_error (subs_of t) n with
           | Some (Some s) =>
               chain rest s (snipk name m) args
-                    (child_obj o (t_id T) i (if mem 35 name then first_number m else 0)) l'
+                    (child_obj o (t_id T) i (port_index name m)) l'
           | _ => []
           end
       end
@@ -595,7 +595,7 @@ Proof.
   destruct (pred f) as [|g] eqn:G; [pose proof (depth_pos s); lia|].
   cbn [spec_run].
   specialize (IH (S g) s (snipk name m) args
-    (child_obj o (t_id T) (Z.of_nat n) (if mem 35 name then first_number m else 0))
+    (child_obj o (t_id T) (Z.of_nat n) (port_index name m))
     (option_map (fun l => l ++ app_of name m pe) p) Hs Hrest). cbn [pred] in IH.
   destruct (option_map (fun l => l ++ app_of name m pe) p) as [l'|]; [|exact IH].
   destruct (tables_of (tab_of s)); [|exact IH].
@@ -627,7 +627,7 @@ Proof.
   cbn [chain]. rewrite En. unfold is_leaf. rewrite Nat2Z.id.
   destruct (nth_error (subs_of t) n) as [[s|]|].
   - destruct (IH s (snipk name m) args
-               (child_obj o (t_id (tab_of t)) (Z.of_nat n) (if mem 35 name then first_number m else 0))
+               (child_obj o (t_id (tab_of t)) (Z.of_nat n) (port_index name m))
                (option_map (fun l => l ++ app_of name m
                    (match rtosc_match name m args with Some (_, Some pe) => pe | _ => [] end)) p) Hrest)
       as [C L].
@@ -642,14 +642,15 @@ Definition no_alt (p : pat) : Prop :=
 Definition no_slash (p : pat) : Prop :=
   Forall (fun s => match s with Lit k => ~ In 47 k | _ => True end) (segs p).
 
-(* names of the documented form: literal text and #N; a port with sub-ports
-   is one component with a trailing '/', a leaf has no trailing '/' *)
+(* names of the documented form: literal text and #N, any number of address
+   components ("a#2/b#3/", "x/y/", "a#2/k#2:i"); a port with sub-ports has a
+   trailing '/', a leaf has none *)
 Inductive names_ok : tree -> Prop :=
 | NamesOk : forall T subs,
     (forall n name sub, nth_error (t_ports T) n = Some (name, sub) ->
        exists p, name = render p /\ wf_pat p /\ no_alt p /\
          match nth_error subs n with
-         | Some (Some _) => subtree p = true /\ no_slash p
+         | Some (Some _) => subtree p = true
          | _ => subtree p = false
          end) ->
     (forall n s, nth_error subs n = Some (Some s) -> names_ok s) ->
@@ -746,12 +747,81 @@ Proof.
   destruct (render_types_shape (types p) Ht) as [->|[X ->]]; destruct (subtree p); reflexivity.
 Qed.
 
+(* ---- names of several components: SNIP strips what the name matched -------- *)
+Fixpoint cnt47 (s : str) : nat :=
+  match s with
+  | [] => O
+  | c :: t => if c =? 47 then S (cnt47 t) else cnt47 t
+  end.
+
+Lemma cnt47_app : forall a b, cnt47 (a ++ b) = (cnt47 a + cnt47 b)%nat.
+Proof.
+  induction a as [|c a IH]; intros b; [reflexivity|]. cbn [app cnt47].
+  destruct (c =? 47); rewrite IH; reflexivity.
+Qed.
+
+Lemma cnt47_digits : forall x, digits x -> cnt47 x = O.
+Proof.
+  induction x as [|c x IH]; intros H; [reflexivity|]. inversion H as [|? ? Hc Hx]; subst.
+  cbn [cnt47]. destruct (c =? 47) eqn:E; [apply Z.eqb_eq in E; subst; discriminate|]. now apply IH.
+Qed.
+
+(* one round of SNIP per '/' of the matched text, and one for the '/' behind it *)
+Lemma snipn_cnt : forall x r, snipn (S (cnt47 x)) (x ++ 47 :: r) = r.
+Proof.
+  induction x as [|c x IH]; intros r; [reflexivity|].
+  cbn [app cnt47]. destruct (c =? 47) eqn:E.
+  - cbn [snipn snip]. rewrite E. exact (IH r).
+  - specialize (IH r). cbn [snipn] in IH |- *. cbn [snip]. rewrite E. exact IH.
+Qed.
+
+Lemma count_slash_app_nocolon : forall a b, ~ In 58 a -> count_slash (a ++ b) = (cnt47 a + count_slash b)%nat.
+Proof.
+  induction a as [|c a IH]; intros b H58; [reflexivity|]. cbn [app count_slash cnt47].
+  destruct (c =? 58) eqn:E1; [apply Z.eqb_eq in E1; subst; exfalso; apply H58; now left|].
+  rewrite IH by (intros H; apply H58; now right).
+  destruct (c =? 47); reflexivity.
+Qed.
+
+Lemma render_segs_no58 : forall l, Forall seg_ok l ->
+  Forall (fun s => match s with Alt _ => False | _ => True end) l -> ~ In 58 (render_segs l).
+Proof.
+  induction l as [|s r IH]; intros Hs Ha; [intros []|].
+  inversion Hs as [|? ? Hs1 Hsr]; subst. inversion Ha as [|? ? Ha1 Har]; subst.
+  rewrite render_segs_cons. intros Hin. apply in_app_or in Hin as [Hin|Hin]; [|now apply IH].
+  destruct s as [k|ds|a]; [| |contradiction]; cbn [render_seg] in Hin.
+  - destruct Hs1 as [_ Hk]. rewrite Forall_forall in Hk. destruct (Hk _ Hin) as (_ & H58 & _). congruence.
+  - destruct Hs1 as (_ & Hd & _). unfold digits in Hd. rewrite Forall_forall in Hd.
+    destruct Hin as [E|Hin]; [discriminate|]. specialize (Hd _ Hin). discriminate.
+Qed.
+
+(* the spelled text has as many '/' as the name's path *)
+Lemma cnt47_spells : forall l x, spells l x -> Forall seg_ok l ->
+  Forall (fun s => match s with Alt _ => False | _ => True end) l -> cnt47 x = cnt47 (render_segs l).
+Proof.
+  induction 1 as [|s r x y Hs Sp IH]; intros Hok Ha; [reflexivity|].
+  inversion Hok as [|? ? Hs1 Hsr]; subst. inversion Ha as [|? ? Ha1 Har]; subst.
+  rewrite render_segs_cons, !cnt47_app, (IH Hsr Har). f_equal.
+  destruct Hs as [k|ds x Hne Hd Hlt|a x Hx]; [reflexivity | | contradiction].
+  cbn [render_seg cnt47]. replace (35 =? 47) with false by reflexivity.
+  destruct Hs1 as (_ & Hds & _). rewrite (cnt47_digits _ Hd), (cnt47_digits _ Hds). reflexivity.
+Qed.
+
+Lemma count_slash_render_sub : forall p, wf_pat p -> no_alt p -> subtree p = true ->
+  count_slash (render p) = S (cnt47 (render_segs (segs p))).
+Proof.
+  intros p Hwf Ha St. destruct Hwf as (Hs & _ & _ & Ht).
+  unfold render, render_tail. rewrite St.
+  rewrite count_slash_app_nocolon by (now apply render_segs_no58).
+  destruct (render_types_shape (types p) Ht) as [->|[X ->]]; cbn; lia.
+Qed.
+
 (* the text appended to loc is the matched part of the message *)
 Lemma app_is_matched : forall p m pe,
   wf_pat p -> no_alt p -> path_spec p m pe ->
   m = app_of (render p) m pe ++ pe /\
   (subtree p = false -> pe = []) /\
-  (subtree p = true -> no_slash p -> snipk (render p) m = pe).
+  (subtree p = true -> snipk (render p) m = pe).
 Proof.
   intros p m pe Hwf Ha Sp. unfold path_spec in Sp.
   assert (HX : exists x, spells (segs p) x /\ m = (x ++ (if subtree p then [47] else [])) ++ pe /\
@@ -768,9 +838,22 @@ Proof.
       rewrite upto_colon_key; [now rewrite <- Ex | | now apply render_types_shape].
       intros Hin. apply in_app_or in Hin as [Hin|Hin]; [now apply (segs_no_colon _ Hs Hl)|].
       destruct (subtree p); cbn in Hin; [destruct Hin as [Hin|[]]; discriminate | contradiction].
-  - intros St Hn. rewrite St in Em. rewrite Em, <- app_assoc. cbn [app].
-    unfold snipk. rewrite (count_slash_render p Hwf Ha Hn), St. cbn [Nat.max snipn].
-    apply snip_app_noslash. eapply spells_no47; eassumption.
+  - intros St. rewrite St in Em. rewrite Em, <- app_assoc. cbn [app].
+    unfold snipk. rewrite (count_slash_render_sub p Hwf Ha St).
+    rewrite <- (cnt47_spells _ _ Sx (proj1 Hwf) Ha).
+    replace (Nat.max 1 (S (cnt47 x))) with (S (cnt47 x)) by lia.
+    apply snipn_cnt.
+Qed.
+
+(* the recursion contract for a name of any number of components: the level
+   below receives exactly what follows the text the name matched, and that
+   text is what went into loc *)
+Theorem snip_strips_matched_name : forall p m pe,
+  wf_pat p -> no_alt p -> subtree p = true -> path_spec p m pe ->
+  snipk (render p) m = pe /\ m = app_of (render p) m pe ++ pe.
+Proof.
+  intros p m pe Hwf Ha St Sp. destruct (app_is_matched p m pe Hwf Ha Sp) as (Em & _ & Hs).
+  split; [now apply Hs | exact Em].
 Qed.
 
 Definition ev_loc_ok (full : str) (e : event) : Prop :=
@@ -810,9 +893,9 @@ Proof.
       destruct (nth_error subs n) as [[s|]|]; [discriminate | |];
         pose proof (Hleaf Hkind) as Epe; subst pe; rewrite app_nil_r in Efull; exact Efull.
     - destruct (nth_error subs n) as [[s|]|] eqn:Es; try contradiction.
-      destruct Hkind as [St Hns]. specialize (Hdesc St Hns).
+      specialize (Hdesc Hkind).
       assert (IHs := IH s (snipk (render p) m) args
-                (child_obj o (t_id T) (0 + Z.of_nat n) (if mem 35 (render p) then first_number m else 0))
+                (child_obj o (t_id T) (0 + Z.of_nat n) (port_index (render p) m))
                 (l ++ app_of (render p) m pe) (l ++ m)).
       rewrite Forall_forall in IHs. apply IHs; try assumption.
       + eapply Hsubs; eassumption.
@@ -921,8 +1004,7 @@ Proof.
   constructor.
   - intros [|[|[|n]]] name sub E; cbn in E; inversion E; subst; cbn [nth_error].
     + exists {| segs := [Lit [97]; Enum [50]]; subtree := true; types := None |}.
-      split; [reflexivity|]. split; [unfold wf_pat; prove_wf|]. split; [repeat constructor|].
-      split; [reflexivity|]. repeat constructor. cbn. intuition discriminate.
+      split; [reflexivity|]. split; [unfold wf_pat; prove_wf|]. split; [repeat constructor | reflexivity].
     + exists {| segs := [Lit [100]]; subtree := false; types := None |}.
       split; [reflexivity|]. split; [unfold wf_pat; prove_wf|]. split; [repeat constructor | reflexivity].
   - intros [|[|[|n]]] s E; cbn in E; inversion E; subst. constructor.
@@ -952,6 +1034,142 @@ Lemma tree_ex_run :
      log := [Ev 1 1 [99] 133 (Some [47; 97; 49; 47; 99]) (Some (1, 1)) true;
              Ev 0 0 [97; 49; 47; 99] 1 (Some [47; 97; 49; 47]) (Some (0, 0)) false] |}.
 Proof. vm_compute. reflexivity. Qed.
+
+(* ---- non-vacuity for names of several address components -------------------
+   { a#2/b#3/ -> { x, u/v/ -> { w } }, a#2/k#2:i } with /a1/b2/u/v/w and /a1/k0 *)
+Definition tab_mc_bot : table :=
+  {| t_id := 2; t_dflt := false; t_ports := [([119], false)]; t_pos := []; t_assoc := [] |}.
+Definition tab_mc_mid : table :=
+  {| t_id := 1; t_dflt := false; t_ports := [([120], false); ([117; 47; 118; 47], true)];
+     t_pos := []; t_assoc := [] |}.
+Definition tab_mc_root : table :=
+  {| t_id := 0; t_dflt := false;
+     t_ports := [([97; 35; 50; 47; 98; 35; 51; 47], true); ([97; 35; 50; 47; 107; 35; 50; 58; 105], false)];
+     t_pos := []; t_assoc := [] |}.
+Definition tree_mc : tree :=
+  Node tab_mc_root [Some (Node tab_mc_mid [None; Some (Node tab_mc_bot [None])]); None].
+(* /a1/b2/u/v/w   /a1/k0 *)
+Definition msg_mc : str := [47; 97; 49; 47; 98; 50; 47; 117; 47; 118; 47; 119].
+Definition msg_mc2 : str := [47; 97; 49; 47; 107; 48].
+
+Lemma tree_mc_tree_ok : tree_ok tree_mc.
+Proof.
+  constructor.
+  - intros [|[|[|n]]] name sub E; cbn in E; inversion E; subst; cbn; split; intros H;
+      try discriminate; try reflexivity; try (eexists; reflexivity); try (destruct H; discriminate).
+  - left. vm_compute. reflexivity.
+  - intros [|[|[|n]]] s E; cbn in E; inversion E; subst. constructor.
+    + intros [|[|[|n]]] name sub E2; cbn in E2; inversion E2; subst; cbn; split; intros H;
+        try discriminate; try reflexivity; try (eexists; reflexivity); try (destruct H; discriminate).
+    + left. vm_compute. reflexivity.
+    + intros [|[|[|n]]] s E2; cbn in E2; inversion E2; subst. constructor.
+      * intros [|[|n]] name sub E3; cbn in E3; inversion E3; subst; cbn; split; intros H;
+          try discriminate; try (destruct H; discriminate).
+      * left. vm_compute. reflexivity.
+      * intros [|[|n]] s E3; cbn in E3; discriminate.
+Qed.
+
+Lemma tree_mc_ok : root_ok tree_mc msg_mc /\ root_ok tree_mc msg_mc2.
+Proof.
+  split; (split; [exact tree_mc_tree_ok | split; [repeat constructor; discriminate | repeat constructor; lia]]).
+Qed.
+
+Lemma tree_mc_names : names_ok tree_mc /\ addr_ok (strip msg_mc) /\ addr_ok (strip msg_mc2).
+Proof.
+  split; [|split; repeat constructor; discriminate].
+  constructor.
+  - intros [|[|[|n]]] name sub E; cbn in E; inversion E; subst; cbn [nth_error].
+    + exists {| segs := [Lit [97]; Enum [50]; Lit [47; 98]; Enum [51]]; subtree := true; types := None |}.
+      split; [reflexivity|]. split; [unfold wf_pat; prove_wf|]. split; [repeat constructor | reflexivity].
+    + exists {| segs := [Lit [97]; Enum [50]; Lit [47; 107]; Enum [50]]; subtree := false; types := Some [[105]] |}.
+      split; [reflexivity|]. split; [unfold wf_pat; prove_wf|]. split; [repeat constructor | reflexivity].
+  - intros [|[|[|n]]] s E; cbn in E; inversion E; subst. constructor.
+    + intros [|[|[|n]]] name sub E2; cbn in E2; inversion E2; subst; cbn [nth_error].
+      * exists {| segs := [Lit [120]]; subtree := false; types := None |}.
+        split; [reflexivity|]. split; [unfold wf_pat; prove_wf|]. split; [repeat constructor | reflexivity].
+      * exists {| segs := [Lit [117; 47; 118]]; subtree := true; types := None |}.
+        split; [reflexivity|]. split; [unfold wf_pat; prove_wf|]. split; [repeat constructor | reflexivity].
+    + intros [|[|[|n]]] s E2; cbn in E2; inversion E2; subst. constructor.
+      * intros [|[|n]] name sub E3; cbn in E3; inversion E3; subst; cbn [nth_error].
+        exists {| segs := [Lit [119]]; subtree := false; types := None |}.
+        split; [reflexivity|]. split; [unfold wf_pat; prove_wf|]. split; [repeat constructor | reflexivity].
+      * intros [|[|n]] s E3; cbn in E3; discriminate.
+Qed.
+
+Lemma tree_mc_addressed :
+  addressed [0%nat; 1%nat; 0%nat] tree_mc (strip msg_mc) [] /\
+  addressed [1%nat] tree_mc (strip msg_mc2) [105].
+Proof.
+  split.
+  - cbn [addressed]. exists [97; 35; 50; 47; 98; 35; 51; 47], true, [117; 47; 118; 47; 119]. split.
+    + split; [reflexivity|]. split; [vm_compute; reflexivity|].
+      intros [|[|[|n]]] name sub Hn E pe'; cbn in E; inversion E; subst; try congruence.
+      vm_compute. discriminate.
+    + cbn. exists [117; 47; 118; 47], true, [119]. split.
+      * split; [reflexivity|]. split; [vm_compute; reflexivity|].
+        intros [|[|[|n]]] name sub Hn E pe'; cbn in E; inversion E; subst; try congruence.
+        vm_compute. discriminate.
+      * cbn. exists [119], false, []. split; [|reflexivity].
+        split; [reflexivity|]. split; [vm_compute; reflexivity|].
+        intros [|[|n]] name sub Hn E pe'; cbn in E; inversion E; subst; congruence.
+  - cbn [addressed]. exists [97; 35; 50; 47; 107; 35; 50; 58; 105], false, []. split; [|reflexivity].
+    split; [reflexivity|]. split; [vm_compute; reflexivity|].
+    intros [|[|[|n]]] name sub Hn E pe'; cbn in E; inversion E; subst; try congruence.
+    vm_compute. discriminate.
+Qed.
+
+Lemma tree_mc_run :
+  dispatch tree_mc msg_mc [] true 1 =
+  {| loc := Some [47]; matches := 1; obj := 1; dport := Some (2, 0);
+     log := [Ev 2 0 [119] 17448 (Some [47; 97; 49; 47; 98; 50; 47; 117; 47; 118; 47; 119]) (Some (2, 0)) true;
+             Ev 1 1 [117; 47; 118; 47; 119] 133 (Some [47; 97; 49; 47; 98; 50; 47; 117; 47; 118; 47]) (Some (1, 1)) false;
+             Ev 0 0 [97; 49; 47; 98; 50; 47; 117; 47; 118; 47; 119] 1 (Some [47; 97; 49; 47; 98; 50; 47]) (Some (0, 0)) false] |} /\
+  dispatch tree_mc msg_mc2 [105] true 1 =
+  {| loc := Some [47]; matches := 1; obj := 1; dport := Some (0, 1);
+     log := [Ev 0 1 [97; 49; 47; 107; 48] 1 (Some [47; 97; 49; 47; 107; 48]) (Some (0, 1)) true] |}.
+Proof. split; vm_compute; reflexivity. Qed.
+
+(* ---- the index an enumerated parent hands down ------------------------------ *)
+Lemma take_digits_app : forall x r, digits x -> starts_with_digit r = false -> take_digits (x ++ r) = x.
+Proof.
+  induction x as [|c x IH]; intros r Hd Hr.
+  - destruct r as [|c r]; [reflexivity|]. cbn in Hr |- *. now rewrite Hr.
+  - inversion Hd as [|? ? Hc Hx]; subst. cbn. rewrite Hc. f_equal. now apply IH.
+Qed.
+
+Lemma skip_to_hash_prefix : forall k rest m, ~ In 35 k -> skip_to_hash (k ++ 35 :: rest) (k ++ m) = Some m.
+Proof.
+  induction k as [|c k IH]; intros rest m H; [reflexivity|]. cbn [app skip_to_hash].
+  destruct (c =? 35) eqn:E; [apply Z.eqb_eq in E; subst; exfalso; apply H; now left|].
+  apply IH. intros Hin. apply H. now right.
+Qed.
+
+(* the child object of "k#N..." is chosen by the number the address spells at
+   the '#' - digits in the literal text k in front of it do not count *)
+Theorem port_index_at_hash : forall k rest x r,
+  ~ In 35 k -> x <> [] -> digits x -> starts_with_digit r = false ->
+  port_index (k ++ 35 :: rest) (k ++ x ++ r) = dec x.
+Proof.
+  intros k rest x r Hk Hne Hd Hr. unfold port_index. rewrite skip_to_hash_prefix by assumption.
+  destruct x as [|c x]; [congruence|]. inversion Hd as [|? ? Hc Hx]; subst.
+  cbn [app first_number]. rewrite Hc.
+  change (c :: x ++ r) with ((c :: x) ++ r). rewrite atoi_acc_take, take_digits_app by assumption.
+  reflexivity.
+Qed.
+
+Lemma port_index_no_hash : forall name m, mem 35 name = false -> port_index name m = 0.
+Proof.
+  unfold port_index. induction name as [|c name IH]; intros m H; [reflexivity|].
+  change (mem 35 (c :: name)) with ((35 =? c) || mem 35 name) in H.
+  apply orb_false_iff in H as [E H]. cbn [skip_to_hash]. rewrite Z.eqb_sym, E.
+  destruct m; apply IH; exact H.
+Qed.
+
+(* "a1x#3/" and a1x2/...: index 2 (the pinned callbacks read 1, the first digit) *)
+Example port_index_ex :
+  port_index [97; 49; 120; 35; 51; 47] [97; 49; 120; 50; 47; 98] = 2 /\
+  first_number [97; 49; 120; 50; 47; 98] = 1.
+Proof. split; reflexivity. Qed.
 
 (* ======================================================================== *)
 (* beyond literal names: it is the branch decision that makes them agree      *)
